@@ -87,7 +87,7 @@ deriving Repr, DecidableEq, Inhabited
 inductive TPc | users | lock | addPermits | detach
 deriving Repr, DecidableEq, Inhabited
 
-inductive ZPc | lock | shrink | grow
+inductive ZPc | enter | lock | shrink | grow
 deriving Repr, DecidableEq, Inhabited
 
 inductive Op
@@ -413,6 +413,9 @@ def drainEvs (i : Nat) : List Obj → List Ev
 def stepResize (s : State) (i : Nat) (n : Nat) (isClose : Bool) (pc : ZPc) (old : Nat) :
     Option State :=
   match pc with
+  | .enter =>
+    -- function entry up to the acquisition of the slots mutex: nothing shared is touched
+    some (s.setOp i (.resize n isClose .lock old))
   | .lock =>
     match s.lock with
     | some _ => none
@@ -507,8 +510,8 @@ def startOp (s : State) (sp : Spec) : Option State :=
     | some o =>
       some { s with ops := s.ops ++ [.take .users o false], out := s.out.erase o }
     | none => none
-  | .resize n => some { s with ops := s.ops ++ [.resize n false .lock 0] }
-  | .close => some { s with ops := s.ops ++ [.resize 0 true .lock 0] }
+  | .resize n => some { s with ops := s.ops ++ [.resize n false .enter 0] }
+  | .close => some { s with ops := s.ops ++ [.resize 0 true .enter 0] }
   | .retain keep => some { s with ops := s.ops ++ [.retain keep] }
   | .status => some { s with ops := s.ops ++ [.status] }
 
@@ -615,6 +618,8 @@ def Op.label (c : Cfg) : Op → String
   | .take .lock .. => "take.lock"
   | .take .addPermits .. => "take.add_permits"
   | .take .detach .. => "take.detach"
+  | .resize _ false .enter _ => "resize.enter"
+  | .resize _ true .enter _ => "close.enter"
   | .resize _ false .lock _ => "resize.lock"
   | .resize _ true .lock _ => "close.lock"
   | .resize _ _ .shrink _ => "resize.shrink"
